@@ -35,6 +35,17 @@ pub fn fine_from_duration(d: Duration) -> u128 {
     FineDuration::from(d).picos
 }
 
+/// `Timestamp::duration_since` on the OS timer, for two `Instant`s `delta`
+/// apart (`reversed`: the later one is passed as `earlier`). `None` if the
+/// platform cannot represent the later `Instant`.
+pub fn os_duration_since(delta: Duration, reversed: bool) -> Option<u128> {
+    use crate::time::{Timer, Timestamp};
+    let a = std::time::Instant::now();
+    let b = a.checked_add(delta)?;
+    let (later, earlier) = if reversed { (a, b) } else { (b, a) };
+    Some(Timestamp::Os(later).duration_since(Timestamp::Os(earlier), Timer::Os).picos)
+}
+
 /// `FineDuration` `Display`.
 pub fn fine_display(
     picos: u128,
